@@ -31,6 +31,8 @@ static const char *lookup(const char *name)
 	for (int i = 0; i < n_seen; i++) if (!strcmp(seen[i], name)) k++;
 	if (n_seen < MAXIN) seen[n_seen++] = strdup(name);
 	char key[600];
+	snprintf(key, sizeof key, "@%d", n_seen - 1);                 /* positional inputs (engine A replays) */
+	for (int i = 0; i < n_in; i++) if (!strcmp(in_name[i], key)) return in_val[i];
 	if (k == 0) snprintf(key, sizeof key, "%s", name); else snprintf(key, sizeof key, "%s#%d", name, k);
 	for (int i = 0; i < n_in; i++) if (!strcmp(in_name[i], key)) return in_val[i];
 	for (int i = 0; i < n_in; i++) if (!strcmp(in_name[i], name)) return in_val[i];
@@ -72,8 +74,10 @@ void vf_file(const char *name, const char *content)
 	if (!fp) { printf("HARNESS-FAIL cannot create %s\n", name); exit(6); }
 	fputs(content, fp); fclose(fp);
 }
+#ifndef VF_NO_CXX
 long vf_stream_content_cxx(void *is, char *buf, long cap);   /* rt/vf_native_cxx.cpp */
 long vf_stream_content(void *is, char *buf, long cap) { return vf_stream_content_cxx(is, buf, cap); }
+#endif
 
 void vf_guarded(void *p, size_t n, void *mutex, const char *name) { (void) p; (void) n; (void) mutex; (void) name; }
 void vf_guard_enable(int on) { (void) on; }
